@@ -790,7 +790,13 @@ func inventory(name string, sha256fmt bool, dir, alt string) (*repo, error) {
 		if err := r.img.Import(alt, "/alt/.git"); err != nil {
 			return nil, err
 		}
-		if err := r.img.WriteFile("/r/.git/objects/info/alternates", []byte("/alt/.git/objects\n"), 0o644); err != nil {
+		// A second, empty alternate: with two or more alternates go-git asks them concurrently and merges the
+		// answers, which is a different code path from the single-alternate one (and had a defect of its own: "no
+		// alternate has it" came back as a nil error).
+		if err := r.img.WriteFile("/alt2/.git/objects/info/keep", []byte("empty object directory\n"), 0o644); err != nil {
+			return nil, err
+		}
+		if err := r.img.WriteFile("/r/.git/objects/info/alternates", []byte("/alt/.git/objects\n/alt2/.git/objects\n"), 0o644); err != nil {
 			return nil, err
 		}
 	}
